@@ -35,10 +35,36 @@ def run(chk, repo):
     mod = repo.module("ceos_alos2.array")
     gi = mod.func("Array.__getitem__")
     where = f"{mod.relpath}:Array.__getitem__"
+    chk.attempt(_t1, chk, repo, g, mod, gi, where)
+    chk.attempt(_t2, chk, repo, g, mod)
+    chk.attempt(_t34, chk, repo, g)
+    chk.count("functions", len(g.funcs))
+
+
+def _t1(chk, repo, g, mod, gi, where):
     # ------------------------------------------------------------ T1
     opens = [e for e in effects.scan(repo, gi) if "open" in e.detail]
     if not opens:
-        raise AnalysisError("anchor vanished: fs.open in Array.__getitem__")
+        # the open moved into a helper: where does the handle live?
+        helper_opens = []
+        for k in sorted(g.reachable([GETITEM])):
+            fi2 = g.funcs[k]
+            for e in effects.scan(repo, fi2):
+                if "open" in e.detail:
+                    helper_opens.append((fi2, e))
+        if not helper_opens:
+            raise AnalysisError("anchor vanished: no fs.open reachable from Array.__getitem__")
+        for fi2, e in helper_opens:
+            shared = []
+            for kind, root, target, node in effects.stores(repo, fi2):
+                v = getattr(node, "value", None)
+                involves = v is not None and (any(x is e.node for x in ast.walk(v)) or any(isinstance(x, ast.Name) and x.id in {n for n, ent in fi2.local_bindings().items() for kk, vv in ent if kk == "assign" and isinstance(vv, ast.AST) and any(y is e.node for y in ast.walk(vv))} for x in ast.walk(v)))
+                if kind in ("item_store", "attr_store") and involves and (root == "self" or root in fi2.params or (root not in fi2.local_bindings())):
+                    shared.append(short(node, 60))
+            chk.require(not shared, "C19-T1", f"{fi2.module.relpath}:{fi2.qualname}", f"{short(e.node, 40)} hands a fresh handle to its caller",
+                        f"the handle opened by {short(e.node, 40)} is kept in shared state ({shared[:2]}): concurrent loads (other variables, other threads) seek/read/close one another's handle",
+                        key="handle-cached-shared")
+        opens = []
     for o in opens:
         item = getattr(o.node, "_parent", None)
         if not isinstance(item, ast.withitem) or not isinstance(item.optional_vars, ast.Name):
@@ -58,6 +84,9 @@ def run(chk, repo):
                     cached.append(f"{fi.qualname}: {short(node, 60)}")
     chk.require(not cached, "C19-T1", "Array / LazilyIndexedWrapper", "no open file handle is stored on an object",
                 f"an open handle is stored on a shared object: {cached}", key="handle-cached-on-self")
+
+
+def _t2(chk, repo, g, mod):
     # ------------------------------------------------------------ T2
     reach = g.reachable([GETITEM, f"{WRAPPER}.__getitem__", f"{WRAPPER}._raw_indexing_method"])
     bad = []
@@ -86,6 +115,10 @@ def run(chk, repo):
                 if root == "self":
                     late.append(f"{q}: {short(node, 50)}")
     chk.require(not late, "C19-T2", f"{mod.relpath}:Array", "Array attributes are assigned only in __post_init__", f"Array mutates itself after construction: {late[:3]}", key="array:late-stores")
+
+
+def _t34(chk, repo, g):
+    reach = g.reachable([GETITEM, f"{WRAPPER}.__getitem__", f"{WRAPPER}._raw_indexing_method"])
     # ------------------------------------------------------------ T3 / T4
     xr = repo.module("ceos_alos2.xarray")
     bad_locks = []
@@ -144,7 +177,8 @@ def run(chk, repo):
         if v is not None and (isinstance(v, ast.Lambda) or any(isinstance(x, ast.Lambda) for x in ast.walk(v))):
             stored_bad.append(short(node, 50))
     chk.require(not stored_bad, "C19-T4", f"{xr.relpath}:LazilyIndexedWrapper.__init__", "no lambda/closure is stored on the wrapper", f"unpicklable members: {stored_bad}", key="wrapper:lambda")
-    chk.count("functions", len(reach))
+
+
 
 
 def handle_uses(fi, h):
